@@ -31,6 +31,9 @@ pub struct Observations {
     pub ref_calls: AtomicU64,
     pub inconsistent_double_read: AtomicBool,
     pub state_touching_calls: AtomicU64,
+    /// grevm side only: panic at this invocation number (0 = never); set once before the run
+    pub panic_at: AtomicU64,
+    pub panicked: AtomicBool,
 }
 
 #[derive(Clone)]
@@ -66,7 +69,12 @@ fn word(v: U256) -> Bytes {
 
 pub fn grevm_precompile(script: Script, obs: Arc<Observations>) -> DynParallelPrecompile {
     DynParallelPrecompile::new(PrecompileId::custom("vharness-script"), move |input: &mut ParallelPrecompileInput<'_>| {
-        obs.grevm_calls.fetch_add(1, Ordering::Relaxed);
+        let nth = obs.grevm_calls.fetch_add(1, Ordering::Relaxed) + 1;
+        let panic_at = obs.panic_at.load(Ordering::Relaxed);
+        if panic_at != 0 && nth == panic_at {
+            obs.panicked.store(true, Ordering::Relaxed);
+            std::panic::panic_any(crate::world::PANIC_PAYLOAD.to_string());
+        }
         if input.gas() < GAS {
             return Err(ParallelPrecompileError::Halt(PrecompileHalt::OutOfGas));
         }
